@@ -89,6 +89,13 @@ def run(ctx):
     model_check(ctx, 3, 1 if q else 2, False)
     broken_variant_is_rejected(ctx, early=True)
     broken_variant_is_rejected(ctx, nolock=True)
+    # unbounded on the model side: the inductive invariant is proved for every NP and MaxRounds (TLAPS);
+    # the same proof must fail for the two broken protocols
+    n = ctx.tlaps("IndexConcurrencyProof")
+    ctx.notes.append("TLAPS: %d proof obligations of IndexConcurrencyProof.tla proved (safety for every number of goroutines)" % n)
+    if not q:
+        ctx.tlaps("IndexConcurrencyProof", expect_failure=True, edit=("StoreEarly = FALSE", "StoreEarly = TRUE"))
+        ctx.tlaps("IndexConcurrencyProof", expect_failure=True, edit=("NoLock = FALSE", "NoLock = TRUE"))
     # schedules
     sch = []
     for fresh in (False, True):
